@@ -7,6 +7,8 @@
      for { txn: If value(decrKey) = v Then puts; Put(decrKey, v-1)   -- success: TDone
                 Else Get(decrKey)                                    -- v := current, retry
      }
+   (When the Else branch finds the key gone the call returns ErrKeyNotExists; markers are
+   deleted only after every instance goroutine finished, so this is outside the model.)
    Each caller performs this loop; requests of different callers interleave
    arbitrarily.  (DeployStatus.v treats the whole loop as one atomic step; the
    theorems of DecrLoopProofs.v justify that.) *)
